@@ -19,6 +19,23 @@ type Ctx struct {
 	name     string
 }
 
+type liveKey struct{}
+
+var liveParent = func() context.Context {
+	c, _ := context.WithCancel(context.Background()) // never cancelled
+	return context.WithValue(c, liveKey{}, true)
+}()
+
+// LiveParent is a standard-library cancellable context that is never
+// cancelled. Harnesses derive their contexts from it instead of from
+// context.Background(), so that the contexts handed to the code under test are
+// what users typically have: a non-standard implementation (vs.Ctx) whose
+// Value chain leads to a live cancellable ancestor. It is never done, so
+// observing it is not a scheduling point.
+func LiveParent() context.Context { return liveParent }
+
+func isLive(ctx context.Context) bool { return ctx.Value(liveKey{}) != nil }
+
 // WithCancel replaces context.WithCancel for harness-created contexts.
 func WithCancel(parent context.Context, name string) (*Ctx, context.CancelFunc) {
 	if parent == nil {
@@ -33,7 +50,7 @@ func WithCancel(parent context.Context, name string) (*Ctx, context.CancelFunc) 
 		} else {
 			p.children = append(p.children, c)
 		}
-	} else if parent.Done() != nil {
+	} else if parent.Done() != nil && !isLive(parent) {
 		panic("vs.WithCancel: parent is a cancellable context that is not modelled")
 	}
 	return c, func() { c.cancel(context.Canceled) }
@@ -131,7 +148,7 @@ func CtxErr(ctx context.Context) error {
 func Done(ctx context.Context) *Chan[struct{}] {
 	c := findCtx(ctx)
 	if c == nil {
-		if ctx.Done() != nil {
+		if ctx.Done() != nil && !isLive(ctx) {
 			panic("vs.Done: cancellable context that is not modelled (unowned nondeterminism)")
 		}
 		return nil
